@@ -38,15 +38,23 @@ DEL_CONTINUES = 1
 FILES = {"t": "file.t", "u": "file.u", "j": "jupyter_0"}
 SLOT_BASE = {"t": 0, "u": 10, "j": 20}
 SHARED = "shared"                           # the service name both contexts compete for (`pyscript.shared`)
-ENTS = ["pyscript.a", "pyscript.b", "pyscript.c"]
-EVS = ["ev1", "ev2"]
+# BOUNDARY: entity / event names that are prefixes of each other (pyscript.a / pyscript.ab, ev1 / ev1x)
+ENTS = ["pyscript.a", "pyscript.b", "pyscript.c", "pyscript.ab"]
+EVS = ["ev1", "ev2", "ev1x"]
+# where a reference to a function can live besides a global variable (op `put` / `drop`, field "kind"):
+# a dict, a default argument, a closure cell, a class attribute, a container of an imported module (another context)
+KINDS = ["dict", "default", "closure", "class", "module"]
+KIND_BASE = {"dict": 0, "default": 2, "closure": 4, "class": 6}
+HOLD_CTX = "modules.hold"
 NAMES = ["f0", "f1", "f2"]
 HASHSEEDS = [0, 1, 2, 3, 4, 5, 6, 7]
 # pools of watched-name sets: one name per entity (the fragment on which today's code is clean) and several names
 # of one entity (value, .old, attribute)
 CLEAN_SETS = [["pyscript.a"], ["pyscript.b"], ["pyscript.a", "pyscript.b"], ["pyscript.b", "pyscript.c"],
+              ["pyscript.ab"], ["pyscript.a", "pyscript.ab"], ["pyscript.ab.old", "pyscript.b"],
               ["pyscript.a", "pyscript.b", "pyscript.c"], ["pyscript.c.old"], ["pyscript.a.attr1", "pyscript.c"]]
 DUP_SETS = [["pyscript.a", "pyscript.a.old", "pyscript.b"], ["pyscript.a", "pyscript.a.attr1"],
+            ["pyscript.ab", "pyscript.ab.old", "pyscript.a"],
             ["pyscript.b", "pyscript.b.old", "pyscript.a", "pyscript.c"], ["pyscript.c", "pyscript.c.old", "pyscript.c.attr1", "pyscript.a"],
             ["pyscript.a.old", "pyscript.a.attr1", "pyscript.b", "pyscript.c"]]
 
@@ -66,10 +74,26 @@ def gen_define(rng, gen, dup):
     services = [f"s{gen}"] if rng.random() < 0.35 else []
     su = rng.random() < 0.25
     sd = rng.random() < 0.25
-    if not sets and not events and not services and not su and not sd:
+    r2 = rng.random()
+    if r2 < 0.08:
+        # a plain function without any decorator: nothing may ever be registered for it
+        sets, events, services, su, sd = [], [], [], False, False
+    elif r2 < 0.18:
+        # triggers of every modelled kind on one function (+ guards that always hold)
+        a = list(rng.choice(DUP_SETS if dup else CLEAN_SETS))
+        used = {".".join(n.split(".")[:2]) for n in a}
+        b = [e for e in ENTS if e not in used][:1]
+        sets = [a] + ([b] if b else [])
+        events, services, su, sd = [rng.choice(EVS)], [f"s{gen}"], True, True
+    elif not sets and not events and not services and not su and not sd:
         events = [rng.choice(EVS)]
-    return {"op": "define", "name": rng.choice(NAMES), "gen": gen, "states": sets, "events": events,
-            "services": services, "su": su, "sd": sd}
+    d = {"op": "define", "name": rng.choice(NAMES), "gen": gen, "states": sets, "events": events,
+         "services": services, "su": su, "sd": sd}
+    if r2 >= 0.08 and r2 < 0.18:
+        d["guards"] = True
+    if rng.random() < 0.2 and (sets or events):
+        d["sleepy"] = True      # every run sleeps 0.1 s: it is still running while the next operations happen
+    return d
 
 
 def gen_case(rng, family, legacy, hashseed):
@@ -84,16 +108,29 @@ def gen_case(rng, family, legacy, hashseed):
             gen += 1
         elif r < 0.58:
             ops.append({"op": "del", "name": rng.choice(NAMES)})
-        elif r < 0.70:
+        elif r < 0.66:
             a, b = rng.sample(NAMES, 2)
             ops.append({"op": "rebind", "dst": a, "src": b})
-        elif r < 0.82:
-            ops.append({"op": "put", "slot": rng.choice([0, 1]), "name": rng.choice(NAMES)})
-        elif r < 0.92:
-            ops.append({"op": "drop", "slot": rng.choice([0, 1])})
+        elif r < 0.69:
+            a = rng.choice(NAMES)
+            ops.append({"op": "rebind", "dst": a, "src": a})          # f = f
+        elif r < 0.72:
+            ops.append({"op": "assign", "name": rng.choice(NAMES)})   # f = 5: the name no longer holds a function
+        elif r < 0.84:
+            ops.append({"op": "put", "slot": rng.choice([0, 1]), "name": rng.choice(NAMES), "kind": rng.choice(KINDS)})
+        elif r < 0.93:
+            ops.append({"op": "drop", "slot": rng.choice([0, 1]), "kind": rng.choice(KINDS)})
         else:
             ops.append({"op": "reloadfile"})
-    ops.append({"op": rng.choice(["unloadall", "unloadall", "deletefile", "reloadfile"])})
+            while rng.random() < 0.3:
+                ops.append({"op": "reloadfile"})     # second, third ... reload without any change
+    last = rng.choice(["unloadall", "unloadall", "deletefile", "reloadfile", "resetup"])
+    if last == "resetup":
+        # unload followed by a fresh set-up in the same process, then business as usual
+        ops += [{"op": "unloadall"}, {"op": "setup"}, gen_define(rng, gen, dup), {"op": "del", "name": rng.choice(NAMES)},
+                {"op": "unloadall"}]
+    else:
+        ops.append({"op": last})
     return {"family": family, "legacy": legacy, "hashseed": hashseed, "ops": ops}
 
 
@@ -170,9 +207,10 @@ def gen_case_jup(rng, legacy, hashseed):
             a, b = rng.sample(NAMES, 2)
             ops.append({"op": "rebind", "file": "j", "dst": a, "src": b})
         elif r < 0.90:
-            ops.append({"op": "put", "file": "j", "slot": 0, "name": rng.choice(NAMES)})
+            ops.append({"op": "put", "file": "j", "slot": 0, "name": rng.choice(NAMES), "kind": rng.choice(KINDS)})
         else:
-            ops.append({"op": "drop", "file": "j", "slot": 0})
+            ops.append({"op": rng.choice(["drop", "assign"]), "file": "j", "slot": 0, "name": rng.choice(NAMES),
+                        "kind": rng.choice(KINDS)})
     if rng.random() < 0.8:
         ops.append({"op": "jend", "file": "j", "how": rng.choice(["shutdown", "shutdown", "delete"])})
         if rng.random() < 0.4:
@@ -217,6 +255,24 @@ def fixed_cases():
             D("f0", 0, services=[SHARED], file="t"), D("f0", 1, [["pyscript.b"]], services=[SHARED], file="u"),
             {"op": "reloadfile", "file": "u"}, D("f0", 2, services=[SHARED], file="u"),
             {"op": "deletefile", "file": "t"}, D("f0", 3, services=[SHARED], file="u"), {"op": "unloadall"}]})
+        # references from a dict, a default argument, a closure, a class attribute and a module's container keep a
+        # function alive after `del`; a reload of the defining file ends it wherever references remain
+        for kind in KINDS:
+            out.append({"family": "fixed", "legacy": legacy, "hashseed": 0, "ops": [
+                D("f0", 0, [["pyscript.a", "pyscript.ab"]], ["ev1x"], ["s0"], su=True, sd=True),
+                {"op": "put", "slot": 0, "name": "f0", "kind": kind}, {"op": "del", "name": "f0"},
+                {"op": "rebind", "dst": "f1", "src": "f1"}, {"op": "drop", "slot": 0, "kind": kind},
+                D("f1", 1, [["pyscript.ab"]], ["ev1"]), {"op": "put", "slot": 1, "name": "f1", "kind": kind},
+                {"op": "rebind", "dst": "f1", "src": "f1"}, {"op": "assign", "name": "f1"},
+                {"op": "reloadfile"}, {"op": "reloadfile"}, {"op": "reloadfile"}, {"op": "unloadall"}]})
+        # all kinds of triggers on one function, which is deleted while one of its runs is still sleeping;
+        # then unload and a fresh set-up in the same process
+        out.append({"family": "fixed", "legacy": legacy, "hashseed": 0, "ops": [
+            dict(D("f0", 0, [["pyscript.a", "pyscript.a.old"], ["pyscript.b"]], ["ev1"], ["s0"], su=True, sd=True),
+                 guards=True, sleepy=True),
+            {"op": "del", "name": "f0"}, D("f1", 1), dict(D("f2", 2, [["pyscript.c"]]), sleepy=True),
+            {"op": "assign", "name": "f2"}, {"op": "unloadall"}, {"op": "setup"},
+            D("f0", 3, [["pyscript.ab"]], ["ev1x"], ["s3"], sd=True), {"op": "unloadall"}]})
         # a Jupyter session with every kind of declaration ends while pyscript keeps running
         for how in ("shutdown", "delete"):
             out.append({"family": "fixed", "legacy": legacy, "hashseed": 0, "ops": [
@@ -228,14 +284,25 @@ def fixed_cases():
     return out
 
 
+def spread_hashseeds(ps):
+    """the fixed walk-throughs that do not depend on the iteration order run under different hash seeds, so that no
+    single worker process gets all of them"""
+    k = 0
+    for p in ps:
+        if len(p["ops"]) > 3:
+            p["hashseed"] = HASHSEEDS[k % len(HASHSEEDS)]
+            k += 1
+    return ps
+
+
 def gen_cases(rng, tier, search):
     import common
-    n = 32 if tier == "quick" else 600
+    n = 28 if tier == "quick" else 600
     if search:
         n *= 3
     cases = []
     if not search:
-        for p in fixed_cases():
+        for p in spread_hashseeds(fixed_cases()):
             cases.append(common.Case(p, None, tags=(p["family"], "legacy" if p["legacy"] else "new")))
     for i in range(n):
         family = ["clean", "dup", "svc", "jup"][i % 4]
@@ -258,33 +325,89 @@ def files_used(payload):
     return sorted(({o.get("file", "t") for o in payload["ops"]} | {"t"}) - {"j"})
 
 
+def decl_lines(d, fname, ind):
+    """decorators + def + body of the function of a `define` op"""
+    lines = []
+    for names in d["states"]:
+        expr = " and ".join(f"{n} != 'never'" for n in names)
+        lines.append(f"{ind}@state_trigger(\"{expr}\")")
+    for ev in d["events"]:
+        lines.append(f"{ind}@event_trigger('{ev}')")
+    for sv in d["services"]:
+        lines.append(f"{ind}@service('pyscript.{sv}')")
+    tt = [x for x, flag in (("startup", d["su"]), ("shutdown", d["sd"])) if flag]
+    if tt:
+        lines.append(f"{ind}@time_trigger({', '.join(repr(x) for x in tt)})")
+    if d.get("guards"):
+        lines.append(f"{ind}@state_active(\"pyscript.c != 'never'\")")
+        lines.append(f"{ind}@time_active(\"range(0:00:00, 23:59:58)\")")
+    lines.append(f"{ind}def {fname}(**kw):")
+    lines.append(f"{ind}    rec('run', {d['gen']}, kw.get('trigger_type'), kw.get('trigger_time'), "
+                 "kw.get('var_name'), kw.get('event_type'), kw.get('probe'))")
+    if d.get("sleepy"):
+        lines.append(f"{ind}    if kw.get('trigger_type') in ('state', 'event'):")
+        lines.append(f"{ind}        task.sleep(0.1)")
+        lines.append(f"{ind}        rec('done', {d['gen']})")
+    return lines
+
+
+def holder_lines(ind, file, value):
+    """statements that store `value` (an expression) in the holder selected by `kind` / `slot`"""
+    return [
+        f"{ind}if kind == 'dict':",
+        f"{ind}    store[slot] = {value}",
+        f"{ind}elif kind == 'default':",
+        f"{ind}    def keeper(x={value}):",
+        f"{ind}        return x",
+        f"{ind}    store['d' + str(slot)] = keeper",
+        f"{ind}elif kind == 'closure':",
+        f"{ind}    def outer(fn):",
+        f"{ind}        def inner():",
+        f"{ind}            return fn",
+        f"{ind}        return inner",
+        f"{ind}    store['c' + str(slot)] = outer({value})",
+        f"{ind}elif kind == 'class':",
+        f"{ind}    setattr(Holder, 'a' + str(slot), {value})",
+        f"{ind}elif kind == 'module':",
+        f"{ind}    hold.box['{file}' + str(slot)] = {value}",
+    ]
+
+
+def unholder_lines(ind, file):
+    return [
+        f"{ind}if kind == 'dict':",
+        f"{ind}    store.pop(slot, None)",
+        f"{ind}elif kind == 'default':",
+        f"{ind}    store.pop('d' + str(slot), None)",
+        f"{ind}elif kind == 'closure':",
+        f"{ind}    store.pop('c' + str(slot), None)",
+        f"{ind}elif kind == 'class':",
+        f"{ind}    if hasattr(Holder, 'a' + str(slot)):",
+        f"{ind}        delattr(Holder, 'a' + str(slot))",
+        f"{ind}elif kind == 'module':",
+        f"{ind}    hold.box.pop('{file}' + str(slot), None)",
+    ]
+
+
+PRELUDE = ["import hold", "store = {}", "", "class Holder:", "    pass", ""]
+
+
 def cell_text(o):
     """the cell a Jupyter client would send for operation `o` of the session"""
     k = o["op"]
     if k == "define":
-        lines = []
-        for names in o["states"]:
-            expr = " and ".join(f"{n} != 'never'" for n in names)
-            lines.append(f"@state_trigger(\"{expr}\")")
-        for ev in o["events"]:
-            lines.append(f"@event_trigger('{ev}')")
-        for sv in o["services"]:
-            lines.append(f"@service('pyscript.{sv}')")
-        tt = [x for x, flag in (("startup", o["su"]), ("shutdown", o["sd"])) if flag]
-        if tt:
-            lines.append(f"@time_trigger({', '.join(repr(x) for x in tt)})")
-        lines.append(f"def {o['name']}(**kw):")
-        lines.append(f"    rec('run', {o['gen']}, kw.get('trigger_type'), kw.get('trigger_time'), "
-                     "kw.get('var_name'), kw.get('event_type'), kw.get('probe'))")
-        return "\n".join(lines) + "\n"
+        return "\n".join(decl_lines(o, o["name"], "")) + "\n"
     if k == "del":
         return f"del {o['name']}\n"
     if k == "rebind":
         return f"{o['dst']} = {o['src']}\n"
+    if k == "assign":
+        return f"{o['name']} = 5\n"
     if k == "put":
-        return f"store[{o['slot']}] = {o['name']}\n"
+        return "\n".join([f"kind = '{o.get('kind', 'dict')}'", f"slot = {o['slot']}"] +
+                         holder_lines("", "j", o["name"])) + "\n"
     if k == "drop":
-        return f"store.pop({o['slot']}, None)\n"
+        return "\n".join([f"kind = '{o.get('kind', 'dict')}'", f"slot = {o['slot']}"] + unholder_lines("", "j")) + "\n"
     return "pass\n"
 
 
@@ -294,27 +417,15 @@ def svc_names(payload):
 
 
 def script_text(payload, file="t"):
-    lines = ["store = {}", "", "def mk(k):"]
+    lines = list(PRELUDE) + ["def mk(k):"]
     defs = [o for o in payload["ops"] if o["op"] == "define" and o.get("file", "t") == file]
     for d in defs:
         lines.append(f"    if k == {d['gen']}:")
-        for names in d["states"]:
-            expr = " and ".join(f"{n} != 'never'" for n in names)
-            lines.append(f"        @state_trigger(\"{expr}\")")
-        for ev in d["events"]:
-            lines.append(f"        @event_trigger('{ev}')")
-        for s in d["services"]:
-            lines.append(f"        @service('pyscript.{s}')")
-        tt = [x for x, flag in (("startup", d["su"]), ("shutdown", d["sd"])) if flag]
-        if tt:
-            lines.append(f"        @time_trigger({', '.join(repr(x) for x in tt)})")
-        lines.append("        def fn(**kw):")
-        lines.append(f"            rec('run', {d['gen']}, kw.get('trigger_type'), kw.get('trigger_time'), "
-                     "kw.get('var_name'), kw.get('event_type'), kw.get('probe'))")
+        lines += decl_lines(d, "fn", "        ")
         lines.append("        return fn")
-    if not defs:
-        lines.append("    return None")
-    lines += ["", "@service", f"def op_{file}(what=None, k=None, name=None, src=None, slot=None):", "    global f0, f1, f2"]
+    lines.append("    return None")
+    lines += ["", "@service", f"def op_{file}(what=None, k=None, name=None, src=None, slot=None, kind=None):",
+              "    global f0, f1, f2"]
     lines.append("    if what == 'define':")
     lines.append("        fn = mk(k)")
     for n in NAMES:
@@ -324,19 +435,24 @@ def script_text(payload, file="t"):
     for n in NAMES:
         lines.append(f"        if name == '{n}':")
         lines.append(f"            del {n}")
+    lines.append("    elif what == 'assign':")
+    for n in NAMES:
+        lines.append(f"        if name == '{n}':")
+        lines.append(f"            {n} = 5")
     lines.append("    elif what == 'rebind':")
-    for s in NAMES:
-        lines.append(f"        if src == '{s}':")
-        lines.append(f"            v = {s}")
+    for sname in NAMES:
+        lines.append(f"        if src == '{sname}':")
+        lines.append(f"            v = {sname}")
     for n in NAMES:
         lines.append(f"        if name == '{n}':")
         lines.append(f"            {n} = v")
     lines.append("    elif what == 'put':")
     for n in NAMES:
         lines.append(f"        if name == '{n}':")
-        lines.append(f"            store[slot] = {n}")
+        lines.append(f"            v = {n}")
+    lines += holder_lines("        ", file, "v")
     lines.append("    elif what == 'drop':")
-    lines.append("        store.pop(slot, None)")
+    lines += unholder_lines("        ", file)
     return "\n".join(lines) + "\n"
 
 
@@ -368,6 +484,10 @@ def _run_one(payload):
             with open(p, "w") as f:
                 f.write(src[file])
             os.utime(p, (1000000 + bump, 1000000 + bump))
+        os.makedirs(os.path.join(root, "modules"), exist_ok=True)
+        with open(os.path.join(root, "modules", "hold.py"), "w") as f:
+            f.write("box = {}\n")        # a module whose container can hold functions of other contexts
+        os.utime(os.path.join(root, "modules", "hold.py"), (1000000, 1000000))
         for f in used:
             write_file(f, 0)
         await env.reload()
@@ -378,8 +498,21 @@ def _run_one(payload):
         nreload = 0
         alive = True
         unloaded = False
-        for o in payload["ops"]:
+        starts, dones = {}, {}
+
+        def drain():
+            """forget the records seen so far, but keep count of started and finished runs of sleeping functions"""
+            for r in env.records:
+                if r[1] == "run" and r[3] in ("state", "event"):
+                    starts[r[2]] = starts.get(r[2], 0) + 1
+                elif r[1] == "done":
+                    dones[r[2]] = dones.get(r[2], 0) + 1
             env.records.clear()
+        nops = len(payload["ops"])
+        for opno, o in enumerate(payload["ops"]):
+            if opno == nops - 1:
+                await env.settle(0.3)     # let sleeping runs finish before the last operation
+            drain()
             env.log.clear()
             k = o["op"]
             fl = o.get("file", "t")
@@ -402,9 +535,9 @@ def _run_one(payload):
                                     jast, jctx, jname)
                     kernel.iopub_server = types.SimpleNamespace(close=lambda: None)   # "the session is up"
                     session.update(name=jname, ast=jast, kernel=kernel)
-                    jast.parse("store = {}\n")
+                    jast.parse("\n".join(PRELUDE) + "\n")
                     await jast.eval()
-                elif fl == "j" and k in ("define", "del", "rebind", "put", "drop"):
+                elif fl == "j" and k in ("define", "del", "rebind", "put", "drop", "assign"):
                     # a cell executed the way Kernel.shell_handler executes an execute_request
                     jg = session["kernel"].global_ctx
                     jg.set_auto_start(False)
@@ -429,10 +562,17 @@ def _run_one(payload):
                     await env.call("pyscript", opsvc, {"what": "del", "name": o["name"]})
                 elif k == "rebind":
                     await env.call("pyscript", opsvc, {"what": "rebind", "name": o["dst"], "src": o["src"]})
+                elif k == "assign":
+                    await env.call("pyscript", opsvc, {"what": "assign", "name": o["name"]})
                 elif k == "put":
-                    await env.call("pyscript", opsvc, {"what": "put", "slot": o["slot"], "name": o["name"]})
+                    await env.call("pyscript", opsvc, {"what": "put", "slot": o["slot"], "name": o["name"],
+                                                       "kind": o.get("kind", "dict")})
                 elif k == "drop":
-                    await env.call("pyscript", opsvc, {"what": "drop", "slot": o["slot"]})
+                    await env.call("pyscript", opsvc, {"what": "drop", "slot": o["slot"], "kind": o.get("kind", "dict")})
+                elif k == "setup":
+                    for entry in hass.config_entries.async_entries("pyscript"):
+                        await hass.config_entries.async_setup(entry.entry_id)
+                    unloaded = False
                 elif k == "reloadfile":
                     nreload += 1
                     write_file(fl, nreload)
@@ -468,7 +608,7 @@ def _run_one(payload):
             cnt = {n: Function.service_cnt.get(n, 0) for n in svcs if Function.service_cnt.get(n, 0)}
             own = {n: Function.service2global_ctx[n] for n in svcs if n in Function.service2global_ctx}
             log = [(r[4], r[2]) for r in env.records if r[1] == "run" and r[3] == "time"]
-            env.records.clear()
+            drain()
             runs = {}
             if not unloaded:
                 # all probe occurrences at once; every run reports which variable / event type triggered it
@@ -482,7 +622,7 @@ def _run_one(payload):
                     runs[e] = sorted(r[2] for r in env.records if r[1] == "run" and r[3] == "state" and r[5] == e)
                 for ty in EVS:
                     runs[ty] = sorted(r[2] for r in env.records if r[1] == "run" and r[3] == "event" and r[6] == ty)
-                env.records.clear()
+                drain()
                 # call every declared service that exists: which generation answers?
                 for n in svcs:
                     runs[n] = []
@@ -493,7 +633,7 @@ def _run_one(payload):
                             runs[n] = ["raise:" + type(e).__name__]
                         await env.settle(0.01)
                         runs[n] += sorted(r[2] for r in env.records if r[1] == "run" and r[3] == "service" and r[7] == n)
-                        env.records.clear()
+                        drain()
             else:
                 runs = {p: [] for p in ENTS + EVS + svcs}
             tasks = [t for t in asyncio.all_tasks() if not t.done() and
@@ -502,8 +642,12 @@ def _run_one(payload):
             obs.append({"st": st, "ev": ev, "bus": bus, "svc": svc, "cnt": cnt, "own": own, "log": log, "runs": runs,
                         "orders": orders,
                         "trigger_tasks": len(tasks), "err": err, "errors": errs[:3]})
-            if unloaded:
-                break
+        # every run that started must finish, also those of functions deleted / unloaded meanwhile
+        await env.settle(0.3)
+        drain()
+        if obs:
+            obs[-1]["starts"] = {str(g): n for g, n in starts.items()}
+            obs[-1]["dones"] = {str(g): n for g, n in dones.items()}
         return obs
 
     try:
@@ -594,10 +738,22 @@ def model_ops(payload):
             ops.append(["del", ctx, o["name"]])
         elif k == "rebind":
             ops.append(["rebind", ctx, o["dst"], o["src"]])
+        elif k == "assign":
+            ops.append(["del", ctx, o["name"]])          # the name is bound to a non-function: the reference is gone
+        elif k == "setup":
+            ops.append(["drop", 99])                     # a fresh set-up loads the (trigger-less) files again
         elif k == "put":
-            ops.append(["put", o["slot"] + slot_base, ctx, o["name"]])
+            kind = o.get("kind", "dict")
+            if kind == "module":
+                # the reference lives in the container of the module `hold`: another global context owns it; the
+                # binding is looked up in the function's own context
+                ops.append(["putx", 40 + o["slot"] + slot_base, ctx, o["name"], HOLD_CTX])
+            else:
+                ops.append(["put", o["slot"] + slot_base + KIND_BASE[kind], ctx, o["name"]])
         elif k == "drop":
-            ops.append(["drop", o["slot"] + slot_base])
+            kind = o.get("kind", "dict")
+            ops.append(["drop", (40 + o["slot"] + slot_base) if kind == "module" else
+                        (o["slot"] + slot_base + KIND_BASE[kind])])
         elif k in ("reloadfile", "deletefile"):
             ops.append(["unloadctx", ctx])
         elif k == "unloadall":
@@ -650,6 +806,7 @@ def oracle(payload):
     binds = {f: {} for f in FILES}
     slots = {f: {} for f in FILES}
     gens, refused = {}, set()
+    xslots = {}       # references held by the container of the module `hold`
     active_prev = set()
     out = []
     legacy = payload["legacy"]
@@ -660,7 +817,7 @@ def oracle(payload):
         a = set()
         for f in FILES:
             a |= set(binds[f].values()) | set(slots[f].values())
-        return a
+        return a | set(xslots.values())
     for o in payload["ops"]:
         k = o["op"]
         f = o.get("file", "t")
@@ -683,18 +840,28 @@ def oracle(payload):
         elif k == "rebind":
             if o["src"] in binds[f]:
                 binds[f][o["dst"]] = binds[f][o["src"]]
+        elif k == "assign":
+            binds[f].pop(o["name"], None)
         elif k == "put":
             if o["name"] in binds[f]:
-                slots[f][o["slot"]] = binds[f][o["name"]]
+                kind = o.get("kind", "dict")
+                (xslots if kind == "module" else slots[f])[(f, kind, o["slot"])] = binds[f][o["name"]]
         elif k == "drop":
-            slots[f].pop(o["slot"], None)
+            kind = o.get("kind", "dict")
+            (xslots if kind == "module" else slots[f]).pop((f, kind, o["slot"]), None)
         elif k in ("reloadfile", "deletefile", "jend"):
+            # the context is stopped: "reloading or removing its file ... deactivates" its functions - also those that
+            # a module's container still references
+            gone = {g for g, d in gens.items() if d.get("file", "t") == f}
             binds[f].clear()
             slots[f].clear()
+            for key in [key for key, g in xslots.items() if g in gone]:
+                del xslots[key]
         elif k == "unloadall":
             for ff in FILES:
                 binds[ff].clear()
                 slots[ff].clear()
+            xslots.clear()
         active = active_set()
         stopped = (active_prev | ({o["gen"]} if k == "define" else set())) - active
         for g in sorted(stopped):
@@ -788,13 +955,20 @@ def deviations(payload):
             devs.append(("startup-shutdown", f"op {idx}: startup/shutdown runs {o['log']} expected {x['log']}"))
         if x["final"] and o["trigger_tasks"]:
             devs.append(("leak:trigger-task", f"op {idx}: {o['trigger_tasks']} trigger tasks pending after unload"))
+        if "starts" in o:
+            sleepy = {str(d["gen"]) for d in gens.values() if d.get("sleepy")}
+            for g in sorted(sleepy):
+                a, b = o["starts"].get(g, 0), o["dones"].get(g, 0)
+                if a != b:
+                    devs.append(("run-not-finished", f"generation {g}: {a} runs started, {b} finished (a run in "
+                                 "progress must complete even when its function is deleted or its file reloaded)"))
     return devs
 
 
 ORDER = ["harness", "raise", "ran-inactive", "active-not-run", "ran-twice", "missing-subscription", "leak:state-subscription",
          "leak:ev-listener", "leak:bus-listener", "missing:ev-listener", "missing:bus-listener", "leak:service",
          "missing:service", "leak:service-count", "missing:service-count", "service-owner", "startup-shutdown",
-         "leak:trigger-task"]
+         "leak:trigger-task", "run-not-finished"]
 
 
 def verdict(c):
